@@ -4123,7 +4123,7 @@ local Bool
 scoUndoStabEntry(StabEntry stent)
 {
 	SymeList	osymes, nsymes;
-	Length		oldLength;
+	Length		oldLength, i;
 
 	if (!stent) return false;
 
@@ -4137,6 +4137,20 @@ scoUndoStabEntry(StabEntry stent)
 		tpossFree(stent->possv[0]);
 		stent->possv[0] = NULL;
 	}
+
+	/*
+	 * The other slots cache further views of the same symes (all of
+	 * them, or those under some condition): a syme which is about to
+	 * be freed must not stay behind there either.
+	 */
+	for (i = 1; i < stent->argc; i += 1) {
+		stent->symev[i] = listFreeIfSat(Syme)(stent->symev[i],
+						     scoUndoSyme, isNewSyme);
+		tpossFree(stent->possv[i]);
+		stent->possv[i] = NULL;
+	}
+	stent->pending = listFreeIfSat(Syme)(stent->pending,
+					     scoUndoSyme, isNewSyme);
 
 	return (nsymes == listNil(Syme));
 }
